@@ -13,6 +13,7 @@ import (
 	"os"
 	"path/filepath"
 	"regexp"
+	rsyntax "regexp/syntax"
 	"sort"
 	"strconv"
 	"strings"
@@ -448,6 +449,50 @@ func patternAlphabet(pats ...string) []rune {
 
 var specials = []rune{foreignRune, '\n', '\v'}
 
+// literalAlphabet: the runes a pattern is about, read off Go's own parse tree (literals, bounds and
+// neighbours of class ranges), in order of appearance
+func literalAlphabet(pats ...string) []rune {
+	seen := map[rune]bool{}
+	var out []rune
+	add := func(r rune) {
+		if r >= 0 && r <= 0x10FFFF && !seen[r] && utf8.ValidRune(r) {
+			seen[r] = true
+			out = append(out, r)
+		}
+	}
+	var walk func(re *rsyntax.Regexp)
+	walk = func(re *rsyntax.Regexp) {
+		switch re.Op {
+		case rsyntax.OpLiteral:
+			for _, r := range re.Rune {
+				add(r)
+			}
+		case rsyntax.OpCharClass:
+			for i := 0; i+1 < len(re.Rune) && i < 12; i += 2 {
+				lo, hi := re.Rune[i], re.Rune[i+1]
+				if lo > 0 {
+					add(lo)
+				}
+				if hi < 0x10FFFF {
+					add(hi)
+				}
+				if lo+1 < hi && lo > 0 {
+					add(lo + 1)
+				}
+			}
+		}
+		for _, sub := range re.Sub {
+			walk(sub)
+		}
+	}
+	for _, p := range pats {
+		if re, err := rsyntax.Parse(p, rsyntax.Perl); err == nil {
+			walk(re)
+		}
+	}
+	return out
+}
+
 type subjectSet struct {
 	alpha []rune
 	list  []string
@@ -539,6 +584,37 @@ func compareRegexps(before, after string, maxLen int, budget int, rng interface{
 			return d, n
 		}
 	}
+	size := func(k, l int) int {
+		t, p := 0, 1
+		for i := 0; i <= l; i++ {
+			t += p
+			p *= k
+		}
+		return t
+	}
+	// first: exhaustively over the runes the two expressions are about
+	{
+		sem := literalAlphabet(before, after)
+		if len(sem) > 8 {
+			sem = sem[:8]
+		}
+		for _, r := range specials {
+			dup := false
+			for _, x := range sem {
+				dup = dup || x == r
+			}
+			if !dup {
+				sem = append(sem, r)
+			}
+		}
+		l := maxLen
+		for l > 1 && size(len(sem), l) > budget {
+			l--
+		}
+		if !allStrings(sem, l, try) {
+			return d, n
+		}
+	}
 	alpha := append(patternAlphabet(before, after), specials...)
 	// dedupe specials
 	{
@@ -551,14 +627,6 @@ func compareRegexps(before, after string, maxLen int, budget int, rng interface{
 			}
 		}
 		alpha = a2
-	}
-	size := func(k, l int) int {
-		t, p := 0, 1
-		for i := 0; i <= l; i++ {
-			t += p
-			p *= k
-		}
-		return t
 	}
 	if size(len(alpha), maxLen) <= budget {
 		allStrings(alpha, maxLen, try)
@@ -679,9 +747,10 @@ var (
 	reBraceDigits     = regexp.MustCompile(`\{[0-9]+(,[0-9]*)?\}`)
 	rePosixSpace      = regexp.MustCompile(`\[\^?\[:\^?space:\]\]`)
 	reOctalJoin       = regexp.MustCompile(`\\[0-7]{1,2}(\(\?:[0-7]\)|\[[0-7]\]|\{1\}[0-7]|.\{0\}[0-7])`)
-	reLitAlt          = regexp.MustCompile(`([^|()\[\]\\*+?{}.^$]+)\|([^|()\[\]\\*+?{}.^$]+)`)
+	reUngreedyOn      = regexp.MustCompile(`\(\?[imsU]*U[imsU-]*[:)]`)
+	reLitAlt          = regexp.MustCompile(`([^|()\[\\*+?.^$]+)\|([^|()\[\\*+?.^$]+)`)
 	reEscapedInBraces = regexp.MustCompile(`\{[0-9]+\\,[0-9]*\}`)
-	reUnwrapRepeat    = regexp.MustCompile(`(\[\{\]|\(\?:\{\))[0-9]|\{[0-9]+(\[,\]|\(\?:,\))|\{[0-9]+,?[0-9]*(\[\}\]|\(\?:\}\))|\{[0-9,]*(\[[0-9]\]|\(\?:[0-9]\))|\{[0-9]+,?[0-9]*,?\{[01]\}`)
+	reUnwrapRepeat    = regexp.MustCompile(`(\[\{\]|\(\?:\{\))[0-9]|\{[0-9]+(\[,\]|\(\?:,\))|\{[0-9]+,?[0-9]*(\[\}\]|\(\?:\}\))|\{[0-9,]*(\[[0-9]\]|\(\?:[0-9]\))|\{[0-9,]*\{[01]\}[0-9,]*\}`)
 	reFlagGroup       = regexp.MustCompile(`\(\?[imsU-]+:`)
 	reFlagOnlyQuant   = regexp.MustCompile(`\(\?[imsU-]*\)([*+?]|\{[0-9])`)
 	reDashRange       = regexp.MustCompile(`\[.*(.--|--.|.-.-.).*\]`)
@@ -756,13 +825,20 @@ func classify(pat, rw string, d *diff) string {
 	case has(pat, "[][]") && has(rw, `\]\[`):
 		return "class-brackets-to-two-runes"
 	}
+	if d.Kind == "match" && reUngreedyOn.MatchString(pat) && strings.Count(rw, "|") < strings.Count(pat, "|") && has(rw, "?") {
+		return "alt-factoring-under-ungreedy-flag"
+	}
 	if d.Kind == "match" && has(pat, ")*") && has(rw, ")+") {
 		return "merge-of-nullable-group"
 	}
 	for _, m := range reLitAlt.FindAllStringSubmatch(pat, -1) {
-		m[1] = strings.TrimPrefix(m[1], ":")
-		if d.Kind == "match" && m[1] != "" && strings.HasPrefix(m[2], m[1]) && utf8.RuneCountInString(m[2]) == utf8.RuneCountInString(m[1])+1 {
-			return "alt-prefix-order"
+		// the first branch is a suffix of m[1] (group syntax such as "i:" or "<q>" may precede it)
+		rs := []rune(m[1])
+		for k := 0; k+2 <= len(rs); k++ {
+			a := string(rs[k:])
+			if d.Kind == "match" && strings.HasPrefix(m[2], a) && utf8.RuneCountInString(m[2]) == len(rs)-k+1 {
+				return "alt-prefix-order"
+			}
 		}
 	}
 	return "unclassified"
@@ -770,8 +846,71 @@ func classify(pat, rw string, d *diff) string {
 
 // ---------------------------------------------------------------------------------------------
 
+// repMinOpen: minimum of a {n}, {n,}, {n,m} text and whether it has no upper bound
+func repMinOpen(rep string) (int, bool) {
+	body := strings.TrimSuffix(strings.TrimPrefix(rep, "{"), "}")
+	parts := strings.SplitN(body, ",", 2)
+	n, _ := strconv.Atoi(parts[0])
+	return n, len(parts) == 2 && parts[1] == ""
+}
+
+// nullable: the expression can match the empty string (as the model's elaboration sees it)
+func nullable(e syntax.Expr) bool {
+	switch e.Op {
+	case syntax.OpConcat:
+		for _, a := range e.Args {
+			if !nullable(a) {
+				return false
+			}
+		}
+		return true
+	case syntax.OpAlt:
+		for _, a := range e.Args {
+			if nullable(a) {
+				return true
+			}
+		}
+		return false
+	case syntax.OpCaret, syntax.OpDollar, syntax.OpStar, syntax.OpQuestion, syntax.OpFlagOnlyGroup:
+		return true
+	case syntax.OpEscapeChar:
+		switch e.Value {
+		case `\A`, `\z`, `\b`, `\B`:
+			return true
+		}
+		return false
+	case syntax.OpQuote:
+		return len(e.Args) > 0 && e.Args[0].Value == ""
+	case syntax.OpPlus, syntax.OpNonGreedy, syntax.OpCapture, syntax.OpNamedCapture, syntax.OpGroup, syntax.OpGroupWithFlags:
+		return nullable(e.Args[0])
+	case syntax.OpRepeat:
+		n, _ := repMinOpen(e.Args[1].Value)
+		return n == 0 || nullable(e.Args[0])
+	}
+	return false
+}
+
+// loopsConsume: no loop whose body can match the empty string (outside: Go's never-revisit rule decides,
+// which a priority search does not model)
+func loopsConsume(e syntax.Expr) bool {
+	for _, a := range e.Args {
+		if !loopsConsume(a) {
+			return false
+		}
+	}
+	switch e.Op {
+	case syntax.OpStar, syntax.OpPlus:
+		return !nullable(e.Args[0])
+	case syntax.OpRepeat:
+		if _, open := repMinOpen(e.Args[1].Value); open {
+			return !nullable(e.Args[0])
+		}
+	}
+	return true
+}
+
 // `[\,-x]`: Go reads a range, the third-party parser three items
-var reEscapedRangeBound = regexp.MustCompile(`\\[^A-Za-z0-9|*+?.\[\]^$()\\-]-[^\]]`)
+var reEscapedRangeBound = regexp.MustCompile(`\\[^0-9xX|*+?.\[\]^$()\\-]-[^\]]`)
 
 var reQuantNothing = regexp.MustCompile(`\(\?[a-zA-Z-]*\)[*+?{]`)
 
@@ -982,6 +1121,7 @@ Definition case_ok (k : case) : bool :=
   match den_top (k_tree k) with
   | None => false
   | Some (r, n, names) =>
+      loops_ok r &&                                    (* inside the domain where the model claims to be exact *)
       Nat.eqb n (k_ngroups k) && list_eqb String.eqb names (k_names k)
       && forallb (fun sr => oz_eqb (go_vec n (find r (decode_runes (fst sr)))) (snd sr)) (k_runs k)
   end.
@@ -1027,7 +1167,7 @@ Definition cases : list case := [
 	}
 	semBodies := make([][]string, semShards)
 	semIdx := make([][]string, semShards)
-	semRuns, semUnsupported := 0, 0
+	semRuns, semUnsupported, semLoops := 0, 0, 0
 	for i, sp := range sems {
 		re := regexp.MustCompile(sp.p)
 		alpha := append(patternAlphabet(sp.p), specials...)
@@ -1057,6 +1197,10 @@ Definition cases : list case := [
 		}
 		tree, _ := parseTree(qp, sp.p)
 		sup := supportedByModel(sp.p)
+		if re2, err := qp.Parse(sp.p); err == nil && !loopsConsume(re2.Expr) {
+			sup = false
+			semLoops++
+		}
 		if !sup {
 			semUnsupported++
 		}
@@ -1076,6 +1220,7 @@ Definition cases : list case := [
 	meta.Distribution["semantics_patterns"] = len(sems)
 	meta.Distribution["semantics_runs"] = semRuns
 	meta.Distribution["semantics_patterns_outside_model"] = semUnsupported
+	meta.Distribution["semantics_patterns_with_nullable_loop_body"] = semLoops
 
 	// 6. oracle: every proposed rewrite, both sides compiled by Go's regexp
 	orng := common.NewRand(seed, "c11-oracle")
@@ -1157,7 +1302,7 @@ var corpus = []string{
 	`(?:(a))(?:(a))`, `(?:(a))(?:(a))*`, `a(?:{)2}`, `(?:(a)b){1}`, `(a|b){0,1}?`, `(?i)[k][K]`, `(?s).{1,}`, `(?U)a{0,}b`,
 	`(|a)*`, `(|a)+`, `(a*)*b`, `(a*)+b`, `(a|b*)*c`, `(?:a*|b)*?c`, `(a??)*b`, `^a$|\bb\B`, `(?m)^a$`, `\Qa.b\E+`,
 	`a{2,3}?b`, `(a){2}`, `(a)|b`, `(?P<n>a)(b)?`, `[^a]`, `[a-c]`, `[a-a]`, `[a-b]`, `x\&y`, `\.\.`, `a    b`,
-	`aa|aaa`, `aaa|aa`, `❤❤|❤❤❤`, `xx|xxx`, `(?i:a)[b]`, `(?s:.)\.\.`, `(|a)*b{1}`, `a|`, `(?:s*?b*)(?:s*?b*)*`, `s(?i){0}`, `\0{1}0`, `[a-b-*]`, `(?:❤x|❤xb)`,
+	`(?U:abc|ab)`, `(?U)xab|ab`, `aa|aaa`, `aaa|aa`, `❤❤|❤❤❤`, `xx|xxx`, `(?i:a)[b]`, `(?s:.)\.\.`, `(|a)*b{1}`, `a|`, `(?:s*?b*)(?:s*?b*)*`, `s(?i){0}`, `\0{1}0`, `[a-b-*]`, `(?:❤x|❤xb)`,
 	`(?:a*b*)*c`, `(a*?)*b`, `(?:a?)*?b`, `((a*)+)+`, `(a*|b)+?c`, `(a??b??)*c`, `(?:(a)|b*)*c`, `(a*){2,3}b`, `(a*){2,}b`, `(a?){3}`,
 	`(a|){2,}?b`, `(?:a|(b))+`, `(?:(a)|(b))*`, `(a)*?(b)??`, `(?i)k+|ſ`, `(?i)[^k]`, `(?i)\W`, `(?s).\n`, `(?m)^$`, `(?U)a+?`, `(?U:a*)a`,
 	`....`, `aaaaa`, `\d\d\d`, `[ab][ab]`, `(?:ab)(?:ab)`, `[^\s]`, `[^\S]`, `[0-9]`, `[^0-9]`, `(?:a|b|c)`,
@@ -1198,7 +1343,9 @@ func (g *gen) pick(l []string) string { return l[g.r.Intn(len(l))] }
 var quants = []string{"*", "+", "?", "{0,1}", "{1,}", "{0,}", "{1}", "{0}", "{2}", "{1,2}", "{2,}", "{0,2}", "{3}"}
 var escapes = []string{`\d`, `\w`, `\s`, `\D`, `\W`, `\S`, `\.`, `\+`, `\,`, `\:`, `\/`, `\-`, `\n`, `\t`, `\x41`, `\075`, `\0`, `\b`, `\&`, `\=`, `\<`, `\%`, `\(`, `\]`, `\[`, `\\`, `\$`, `\^`, `\{`, `\A`, `\z`, `\B`}
 var classItems = []string{"a", "b", "c", "x", "-", "]", "^", "[", ":", "+", ",", ".", "{", "}", "0", "1", `\.`, `\-`, `\]`, `\d`, `\s`, `\w`, `\S`, `\n`,
-	"[:space:]", "[:^space:]", "[:word:]", "[:digit:]", "[:alpha:]", "[:^digit:]", "0-9", "a-c", "a-a", "a-b", "+--", ",--", "a-z", "❤", `\:`, `\,`, "|", "*", "?", "$", "(", ")", " "}
+	"[:space:]", "[:^space:]", "[:word:]", "[:digit:]", "[:alpha:]", "[:^digit:]", "0-9", "a-c", "a-a", "a-b", "+--", ",--", "a-z", "❤", `\:`, `\,`, "|", "*", "?", "$", "(", ")", " ",
+	// ranges between multi-byte runes, with different distances between their first bytes
+	"а-я", "а-в", "α-γ", "é-ë", "❤-❥", "一-三", "я", "é"}
 
 func (g *gen) class() string {
 	var b strings.Builder
@@ -1218,7 +1365,7 @@ func (g *gen) class() string {
 }
 
 func (g *gen) atom(d int) string {
-	switch k := g.r.Intn(24); {
+	switch k := g.r.Intn(26); {
 	case k < 8:
 		return g.pick(g.alpha)
 	case k == 8:
@@ -1243,6 +1390,11 @@ func (g *gen) atom(d int) string {
 	case k == 20:
 		a := g.atom(d - 1)
 		return a + a + "*"
+	case k == 22:
+		// a group around one (possibly quantified) atom, itself quantified or not
+		return "(?:" + g.quantified(0) + ")"
+	case k == 23:
+		return "(" + g.quantified(0) + ")"
 	case k == 21 && d > 0:
 		a := "(?:" + g.re(d-1) + ")"
 		return a + a + g.pick([]string{"", "*", a})
